@@ -45,6 +45,8 @@ deriving Repr
 
 /-- `make_enum`: the BYHOUR / BYMINUTE / BYSECOND values (as uint8_t), each defaulting to the proto's field -/
 def makeEnum (proto : Inst) (r : Rule) : Enum :=
+  -- BYHOUR, BYMINUTE and BYSECOND are ignored next to a DATE value (RFC 5545, 3.3.10): `echs_instant_all_day_p(proto)`
+  if proto.H = allDay then { H := [proto.H % 256], M := [proto.M % 256], S := [proto.S % 256] } else
   { H := if r.H.isEmpty then [proto.H % 256] else r.H.map (· % 256)
     M := if r.M.isEmpty then [proto.M % 256] else r.M.map (· % 256)
     S := if r.S.isEmpty then [proto.S % 256] else r.S.map (· % 256) }
